@@ -73,6 +73,12 @@ class KnownFindings:
                 self.entries = json.load(f)["findings"]
         except FileNotFoundError:
             self.entries = []
+        d = os.path.join(os.path.dirname(path), "known_findings.d")
+        if os.path.isdir(d):
+            for fn in sorted(os.listdir(d)):
+                if fn.endswith(".json"):
+                    with open(os.path.join(d, fn)) as f:
+                        self.entries.extend(json.load(f)["findings"])
 
     def match(self, prop, vid):
         for e in self.entries:
